@@ -940,3 +940,39 @@ Theorem run_length_is_the_expansion edges est parts phi runs :
 Proof.
   split; [intros b k; apply hist_bsum_w_expand|]. apply comp_get_ext. intros b k. apply hist_bsum_w_expand.
 Qed.
+
+(* ========================================================================================== configuration histories *)
+Lemma assign_refused tol cfg l : edges_ok tol l = false -> assign_edges tol cfg l = cfg.
+Proof. intros H. unfold assign_edges. rewrite H. reflexivity. Qed.
+
+Lemma assign_accepted tol cfg l : edges_ok tol l = true ->
+  cfg_edges (assign_edges tol cfg l) = Some l /\ cfg_bins (assign_edges tol cfg l) = nbins l.
+Proof. intros H. unfold assign_edges. rewrite H. split; reflexivity. Qed.
+
+Lemma find_app' {A} (f : A -> bool) l1 l2 :
+  find f (l1 ++ l2) = match find f l1 with Some x => Some x | None => find f l2 end.
+Proof. induction l1 as [|a l1 IH]; cbn [app find]; [reflexivity|]. destruct (f a); [reflexivity|exact IH]. Qed.
+
+(* whatever sequence of edge lists is assigned (accepted or refused), bins_number stays the number of bins of the edges in force,
+   the edges in force are an accepted list, and they are the last accepted one *)
+Theorem assign_history tol cfg ls :
+  cfg_consistent cfg -> (forall e, cfg_edges cfg = Some e -> edges_ok tol e = true) ->
+  let cfg' := fold_left (assign_edges tol) ls cfg in
+  cfg_consistent cfg'
+  /\ (forall e, cfg_edges cfg' = Some e -> edges_ok tol e = true)
+  /\ cfg' = match find (edges_ok tol) (rev ls) with
+            | Some l => {| cfg_edges := Some l; cfg_bins := nbins l |}
+            | None => cfg
+            end.
+Proof.
+  revert cfg. induction ls as [|l ls IH]; intros cfg Hc Hok; cbn [fold_left rev find].
+  - repeat split; assumption.
+  - assert (Hc' : cfg_consistent (assign_edges tol cfg l)).
+    { unfold assign_edges. destruct (edges_ok tol l); [reflexivity|exact Hc]. }
+    assert (Hok' : forall e, cfg_edges (assign_edges tol cfg l) = Some e -> edges_ok tol e = true).
+    { unfold assign_edges. destruct (edges_ok tol l) eqn:E; [|exact Hok]. cbn. intros e He. injection He as <-. exact E. }
+    destruct (IH _ Hc' Hok') as (H1 & H2 & H3). repeat split; [exact H1|exact H2|].
+    rewrite H3, find_app'. unfold assign_edges.
+    destruct (find (edges_ok tol) (rev ls)); [reflexivity|]. cbn [find].
+    destruct (edges_ok tol l); reflexivity.
+Qed.
